@@ -5,16 +5,18 @@ from .util import s_and, s_or
 ID = "C36"
 MP = "breezy.git.mapping"
 RF = "breezy.git.refs"
-FUNCTIONS = [MP + ":escape_file_id", MP + ":unescape_file_id", MP + ":BzrGitMapping.generate_file_id",
+FUNCTIONS = ["breezy.git.urls:git_url_to_bzr_url", MP + ":escape_file_id", MP + ":unescape_file_id", MP + ":BzrGitMapping.generate_file_id",
              MP + ":BzrGitMapping.parse_file_id", MP + ":BzrGitMapping.revision_id_foreign_to_bzr",
              MP + ":BzrGitMapping.revision_id_bzr_to_foreign", MP + ":GitMappingRegistry.revision_id_bzr_to_foreign",
              RF + ":branch_name_to_ref", RF + ":ref_to_branch_name", RF + ":tag_name_to_ref", RF + ":ref_to_tag_name",
              RF + ":is_tag", RF + ":is_peeled"]
-STUBS = []
+STUBS = ["git_url_passthrough: urlutils.URL (Rust) is replaced by a stand-in whose printing yields a marker string - re-serialising a URL is treated as producing a different string, which is witnessed on the real class before each run"]
 ASSUMPTIONS = ["paths for generate_file_id / parse_file_id are arbitrary bytes (the engine models the UTF-8 codec including "
                "surrogateescape); branch / tag names are over an ASCII alphabet; file ids for escape/unescape are "
                "arbitrary bytes"]
-OUTSIDE = ["git_url_to_bzr_url / bzr_url_to_git_url (Rust + dulwich URL parsing)", "GitBranch.set_parent (config I/O)",
+OUTSIDE = ["the URL class and bzr_url_to_git_url themselves (Rust) and rsync-style locations (dulwich parsing): only the "
+           "decision of git_url_to_bzr_url to pass a URL through untouched or to re-serialise it is checked",
+           "GitBranch.set_parent (config I/O)",
            "non-ASCII names and paths", "ids longer than the bounds"]
 
 NAME_ALPHA = "a/refshdtg_ "
@@ -126,6 +128,60 @@ def ob_refs_reverse(cx):
     cx.cover("done")
 
 
+GU = "breezy.git.urls"
+_MARK = "\x00re-serialised\x00"
+
+
+def _url_setup(ls):
+    """Parsing a URL and printing it again is NOT the identity for the compiled URL class (it drops passwords and empty
+    ports and re-cases escapes): that is why a URL that needs no rewriting has to be handed on untouched.  Witnessed here on
+    the real class, so that the abstraction used by the obligation (re-serialisation = a different string) stays honest."""
+    from breezy import urlutils
+    lossy = [u for u in ("https://u:p@h/%7ex", "git://h:/x", "http://h/%2fa") if str(urlutils.URL.from_string(u)) != u]
+    if len(lossy) != 3:
+        raise RuntimeError("URL re-serialisation is expected to be lossy on the witnesses; got %r" % (lossy,))
+
+
+def ob_git_url(cx):
+    """git_url_to_bzr_url without branch / ref: a URL whose scheme git understands natively is passed through UNCHANGED
+    (only ssh:// is rewritten, to git+ssh://), so that bzr_url_to_git_url gets back the URL the user wrote."""
+    G = cx.mod(GU)
+    schemes = ["git+ssh", "git", "http", "https", "ftp", "ssh", "chroot-1"]
+    scheme = cx.pick("scheme", schemes)
+    rest = cx.str("rest", cx.choose("lrest", 1, cx.p("lrest")), "a:@/%7~.")
+    location = scheme + "://" + rest
+    made = []
+
+    class URL:
+        def __init__(self, scheme):
+            self.scheme = scheme
+            made.append(self)
+
+        @classmethod
+        def from_string(cls, loc):
+            assert loc is location
+            return cls(scheme)
+
+        def __str__(self):
+            return _MARK + self.scheme
+
+    class U:
+        def __getattr__(self, name):
+            return getattr(cx.real("breezy.urlutils"), name)
+    u = U()
+    u.URL = URL
+    G.urlutils = u
+    got = G.git_url_to_bzr_url(location)
+    if scheme == "ssh":
+        cx.require(got == _MARK + "git+ssh", "ssh:// URL not rewritten to git+ssh://")
+        cx.cover("ssh")
+    else:
+        cx.require(got is location or got == location, "a URL that needs no rewriting was parsed and printed again "
+                                                       "(lossy: passwords, empty ports and escapes change)")
+        cx.cover("passthrough")
+    cx.observe("same", got is location)
+
+
 def obligations(tier):
     q = tier == "quick"
     p = dict(n=5 if q else 8, nname=6 if q else 8, alpha=NAME_ALPHA)
@@ -142,4 +198,7 @@ def obligations(tier):
            bounds="names <= %(nname)d chars over %(alpha)r" % p),
         Ob("ref_names_reverse", ob_refs_reverse, [RF], p, to, 1, ["done"], known=kn,
            bounds="refs/heads/ and refs/tags/ + <= %(nname)d chars over %(alpha)r" % p),
+        Ob("git_url_passthrough", ob_git_url, [GU], dict(lrest=3 if q else 5), to, 1, ["ssh", "passthrough"], setup=_url_setup,
+           bounds="scheme in git+ssh / git / http / https / ftp / ssh / chroot-*, rest of the URL <= %d symbolic chars over "
+                  "'a:@/%%7~.'; no branch / ref parameter" % (3 if q else 5)),
     ]
